@@ -455,6 +455,67 @@ Section Proofs.
         unfold stf. rewrite run_cache_untouched by exact NW. apply E0.
   Qed.
 
+  (* ----- DisablePut: no secret is ever written ----- *)
+  Notation fs_step := (fs_step b64enc b64dec).
+  Notation fs_run := (fs_run b64enc b64dec).
+
+  Lemma fs_step_enabled st o : fs_step false st o = step st o.
+  Proof. destruct o; reflexivity. Qed.
+
+  Lemma fs_run_enabled h : forall st, fs_run false st h = run st h.
+  Proof. induction h as [|o h IH]; intro st; simpl; [reflexivity|]. now rewrite fs_step_enabled, IH. Qed.
+
+  Lemma put_disabled st a c : fs_step true st (Put a c) = (st, RErrPutDisabled).
+  Proof. reflexivity. Qed.
+
+  Definition not_put (o : op) : bool := match o with Put _ _ => false | _ => true end.
+
+  Lemma fs_run_disabled h : forall st, fs_run true st h = run st (filter not_put h).
+  Proof.
+    induction h as [|o h IH]; intro st; [reflexivity|].
+    destruct o as [a|a c|a]; simpl; now rewrite IH.
+  Qed.
+
+  (* without Puts the cache only loses entries *)
+  Lemma step_cache_shrinks st o a e :
+    not_put o = true ->
+    lookup a (cache_of (fst (step st o))) = Some e -> lookup a (cache_of st) = Some e.
+  Proof.
+    destruct o as [a'|a' c|a']; simpl; intros NP L; [exact L|discriminate|].
+    destruct (lookup a' (m_cache (st_mem st))) eqn:E; [|exact L].
+    unfold cache_of in L. simpl in L.
+    destruct (str_eqb a' a) eqn:EA.
+    - apply str_eqb_spec in EA. subst a'. rewrite lookup_del_eq in L. discriminate.
+    - apply str_eqb_false in EA. now rewrite lookup_del_neq in L.
+  Qed.
+
+  Lemma run_cache_shrinks h : forall st a e,
+    forallb not_put h = true ->
+    lookup a (cache_of (run st h)) = Some e -> lookup a (cache_of st) = Some e.
+  Proof.
+    induction h as [|o h IH]; intros st a e NP L; [exact L|].
+    simpl in NP. apply andb_true_iff in NP as [N1 N2]. simpl in L.
+    apply (step_cache_shrinks st o a e N1). now apply (IH _ a e N2).
+  Qed.
+
+  Lemma filter_not_put h : forallb not_put (filter not_put h) = true.
+  Proof. induction h as [|o h IH]; simpl; [reflexivity|]. destruct (not_put o) eqn:E; simpl; [now rewrite E|exact IH]. Qed.
+
+  (* with DisablePut every auths entry in the file after any history is an entry
+     the opened document already had, unchanged *)
+  Lemma disable_put_no_new_entry f st0 h a e :
+    open_store f = Some st0 ->
+    file_entry a (st_file (fs_run true st0 h)) = Some e -> file_entry a f = Some e.
+  Proof.
+    intros OP FE. rewrite fs_run_disabled in FE.
+    destruct (open_store_spec f st0 OP) as (F0 & _ & E0 & _).
+    pose proof (run_descends (filter not_put h) st0 st0 (descends_refl st0)) as (_ & _ & FILE).
+    destruct FILE as [SAME|(FEQ & AE & _)].
+    - rewrite SAME, F0 in FE. exact FE.
+    - unfold file_entry in FE at 1. rewrite FEQ in FE. simpl in FE. rewrite AE in FE.
+      rewrite <- E0. apply (run_cache_shrinks (filter not_put h) st0 a e (filter_not_put h) FE).
+  Qed.
+
   (* ----- reopening the saved file gives a store with the same secrets ----- *)
   Lemma reopen f st0 h :
     open_store f = Some st0 ->
